@@ -678,6 +678,9 @@ func (i *c09Inst) Apply(op int) (string, []rep.Violation) {
 	}
 	var err error
 	var cp *document.Table
+	// an iterator made before the call: after Reset it must walk the table as it is then
+	var oldIter *document.CellIterator
+	guard(func() { oldIter = t.NewCellIterator() })
 	pan := guard(func() {
 		switch o.kind {
 		case "InsertRow":
@@ -838,6 +841,31 @@ func (i *c09Inst) Apply(op int) (string, []rep.Violation) {
 	}
 	// W6 accessors
 	viol = append(viol, i.checkAccessors(o, after)...)
+	if oldIter != nil {
+		var seen [][2]int
+		pi := guard(func() {
+			oldIter.Reset()
+			for n := 0; oldIter.HasNext() && n < 1000; n++ {
+				ci, e := oldIter.Next()
+				if e != nil || ci == nil {
+					seen = append(seen, [2]int{-1, -1})
+					break
+				}
+				seen = append(seen, [2]int{ci.Row, ci.Col})
+			}
+		})
+		var want [][2]int
+		for r := range after.Rows {
+			for c := range after.Rows[r] {
+				want = append(want, [2]int{r, c})
+			}
+		}
+		if pi != "" {
+			viol = append(viol, rep.Violation{Sig: "W0-panic|iterator-made-before-" + o.kind + "|" + panicClass(pi), Clause: "W0", What: "an iterator created before " + o.name + " panics when reset and used after it: " + pi})
+		} else if fmt.Sprint(seen) != fmt.Sprint(want) {
+			viol = append(viol, rep.Violation{Sig: "W6-iterator-made-before-the-call|" + class, Clause: "W6", What: fmt.Sprintf("an iterator created before %s, reset after it, visits %v; the cells are %v", o.name, seen, want)})
+		}
+	}
 	if changed {
 		return "ok", viol
 	}
